@@ -88,8 +88,12 @@ def _run_job(args):
     fn = getattr(importlib.import_module(fn_mod), fn_name)
     signal.signal(signal.SIGALRM, _alarm)
     signal.alarm(timeout)
+    t0 = time.time()
     try:
-        return fn(job)
+        res = fn(job)
+        res['wall'] = time.time() - t0
+        res['job'] = repr(job)[:160]
+        return res
     except JobTimeout:
         a = Acc()
         a.add('_job_timeouts')
@@ -120,6 +124,8 @@ class Ctx(Acc):
         return self.tier == 'thorough'
 
     def merge(self, res):
+        if 'wall' in res:
+            self.slow = sorted(getattr(self, 'slow', []) + [(round(res['wall'], 1), res.get('job', ''))], reverse=True)[:4]
         for k, v in res['counts'].items():
             self.counts[k] += v
         for s in res['samples']:
@@ -196,6 +202,8 @@ class Ctx(Acc):
             violations_raw=raw,
         )
         cov.update({k: jsonable(v) for k, v in self.extra.items() if k != 'exhaustive'})
+        if getattr(self, 'slow', None):
+            cov['slowest_jobs'] = [list(x) for x in self.slow]
         if self.notes:
             cov['notes'] = jsonable(self.notes)
         if self.harness_errors:
